@@ -26,6 +26,16 @@ CLAIMS = {
         "note": "Trusts CrossHair/z3, the log oracle in harness/c03.py, the stubs. Timer/service effects observed at the engine's own entry points (states declare none). Outside: multi-transition macrosteps (C02/C10), machines beyond the skeleton family.",
         "design": "DESIGN.md section 4 C03",
     },
+    "C04": {
+        "text": "Bounded symbolic check with sequentialised producers: a machine whose actions send to their own interpreter (plain send / raise) at 6 symbolically selected positions (entry during start(), exit, transition actions, choose branch, always action), single sends and send_events() batches of symbolic size; under virtual time two producers sending at symbolic instants next to an after-timer and a slow action of symbolic duration. Oracle over the bracket log opened by on_event_received: every accepted event processed exactly once, brackets never nest, per-sender order preserved, eventless follow-ups complete inside their bracket, raised events are handled after the current bracket. Both engines. (Bursts larger than maxIterations: see C13.)",
+        "note": "NARROWER THAN THE STATEMENT: pre-emptive interleavings of two OS threads inside send()/_process_event_queue (check-then-set on the re-entrancy flag, lost wake-ups) are not covered - CrossHair executes one thread; producers are sequentialised and only WHERE/WHEN they send is symbolic. Trusts CrossHair/z3 and the virtual-time stubs.",
+        "design": "DESIGN.md section 4 C04",
+    },
+    "C13": {
+        "text": "Bounded-fuel symbolic check: machines with each feedback path (mutually enabling always, an action raising its own trigger, onDone re-completing its own state, done.invoke re-entering the invoking state, parallel regions each running an always chain) with symbolic maxIterations in [1,5], natural chain length in [0,7] or unbounded, trigger = start() or an event: every call returns within F chain steps (a fuel counter raising a BaseException turns non-termination into a counterexample), chains not longer than the bound run to their natural end, the configuration is legal and the next event is processed afterwards; bursts of symbolic size (plain, re-arming a delayed self-raise, forwarded to a child actor) sent one by one or with send_events() are all processed whatever maxIterations is; under the async engine a heartbeat task keeps advancing while a chain runs. Both engines.",
+        "note": "NARROWER THAN THE STATEMENT: termination only in the bounded-fuel sense, for maxIterations <= 5 and the listed feedback kinds. Trusts CrossHair/z3, the virtual-time stubs; self-enqueueing pure/choose/enqueueActions expansion (MAX_ACTION_DEPTH) is not exercised.",
+        "design": "DESIGN.md section 4 C13",
+    },
     "C05": {
         "text": "Bounded symbolic check: a feature machine (hierarchy, parallel, history incl. history targets from inside the parent, guards, assign/raise/choose/pure/enqueueActions, always, onDone, sync service, final output) is run on SyncInterpreter, on Interpreter (virtual-time loop, observed at quiescence) and through initial_transition/transition with the same symbolic events and guard outcomes; after every event configuration, context, status, output and the ordered action/marker traces with their triggering events are equal; one-step variant from every non-final configuration x recorded history; the pure functions run no user code and leave machine and snapshot unchanged.",
         "note": "Trusts CrossHair/z3 and the virtual-time loop. One machine (FM, and FM without service for the pure API: the pure probe suppresses services by design); sequences of 2 (quick) / 3 events + the one-step variant. The synthetic init event handed to entry actions during start() is not compared (there is no triggering event).",
